@@ -17,6 +17,7 @@ from ..core import AnchorError, Func, U, own_nodes
 from ..ctx import Ctx
 from ..reach import Reaching
 from ..report import RuleResult, alpha
+from ..syn import cmp_oriented, const_int, incr_of
 from ..tokens import option_read_key
 
 LINE_TABLES = ("bMarks", "eMarks", "tShift", "sCount", "bsCount")
@@ -58,8 +59,18 @@ def rule_guard(c: Ctx) -> RuleResult:
     st = f.node.args.args[1].arg
     cfg = c.cfg(f)
     r.functions += 1
+    rd_sk = Reaching(cfg)
+
+    def is_memo(e: ast.AST, at: ast.AST) -> bool:
+        """e denotes the state's memo table: <state>.cache or a local bound to it."""
+        if isinstance(e, ast.Attribute) and e.attr == "cache" and U(e.value) == st:
+            return True
+        if isinstance(e, ast.Name):
+            ds = rd_sk.at_ast(at, e.id)
+            return bool(ds) and all(d.value is not None and isinstance(d.value, ast.Attribute) and d.value.attr == "cache" for d in ds)
+        return False
     lookups = [n for n in cfg.nodes if n.kind == "test" and isinstance(n.ast, ast.Compare) and len(n.ast.ops) == 1
-               and isinstance(n.ast.ops[0], (ast.In, ast.NotIn)) and "cache" in U(n.ast.comparators[0])]
+               and isinstance(n.ast.ops[0], (ast.In, ast.NotIn)) and is_memo(n.ast.comparators[0], n.ast)]
     disp = [cs for cs in c.cg.sites.get(f, []) if cs.kind.startswith("dispatch:inline")]
     if not disp:
         raise AnchorError("skipToken no longer dispatches the inline rules")
@@ -76,7 +87,7 @@ def rule_guard(c: Ctx) -> RuleResult:
         starts = [m for (m, l) in lk.succ if l == miss_lab]
 
         def is_cache_store(n: Node) -> bool:
-            return _stores_to(n, lambda t: isinstance(t, ast.Subscript) and "cache" in U(t.value))
+            return _stores_to(n, lambda t: isinstance(t, ast.Subscript) and is_memo(t.value, n.ast))
         bad = _must_pass(cfg, starts, is_cache_store, lambda n: n is cfg.exit)
         # which exit statement?
         r.add("skipToken|store", c.where(f, lk.ast), f.short, "cache[pos] = state.pos", "discharged" if bad is None else "violation",
@@ -93,14 +104,15 @@ def rule_guard(c: Ctx) -> RuleResult:
         rd = Reaching(cfg)
         caps = []
         for n in cfg.nodes:
-            if n.kind == "test" and isinstance(n.ast, ast.Compare) and len(n.ast.ops) == 1 and f"{stn}.level" in U(n.ast.left):
-                rhs = n.ast.comparators[0]
+            co = cmp_oriented(n.ast, lambda e: f"{stn}.level" in U(e)) if n.kind == "test" else None
+            if co is not None:
+                rhs = co[2]
                 isopt = option_read_key(rhs) == "maxNesting"
                 if isinstance(rhs, ast.Name):
                     ds = rd.at(n, rhs.id)
                     isopt = bool(ds) and all(d.value is not None and any(option_read_key(x) == "maxNesting" for x in ast.walk(d.value)) for d in ds)
                 if isopt:
-                    hit = {ast.GtE: "T", ast.Gt: "T", ast.Lt: "F", ast.LtE: "F"}.get(type(n.ast.ops[0]))
+                    hit = {ast.GtE: "T", ast.Gt: "T", ast.Lt: "F", ast.LtE: "F"}.get(co[1])
                     if hit:
                         caps.append((n, hit))
         if not caps:
@@ -176,10 +188,26 @@ def rule_guard(c: Ctx) -> RuleResult:
     cfg = c.cfg(f)
     rd = Reaching(cfg)
     r.functions += 1
+    # the opener search: an inner while loop `cursor > bound` (either operand order) whose bound is read from a two-level table
+    table = None
+    inner_loops = []
+    for w in own_nodes(f.node):
+        if not isinstance(w, ast.While) or not isinstance(w.test, ast.Compare) or len(w.test.ops) != 1:
+            continue
+        a_, b_ = w.test.left, w.test.comparators[0]
+        for cur_e, bnd_e, okop in ((a_, b_, (ast.Gt, ast.GtE)), (b_, a_, (ast.Lt, ast.LtE))):
+            if isinstance(bnd_e, ast.Name) and isinstance(cur_e, ast.Name) and isinstance(w.test.ops[0], okop):
+                ds = rd.at_ast(w.test, bnd_e.id)
+                for d in ds:
+                    v = d.value
+                    if isinstance(v, ast.Subscript) and isinstance(v.value, ast.Subscript) and isinstance(v.value.value, ast.Name):
+                        table = v.value.value.id
+                        inner_loops.append((w, cur_e.id, bnd_e.id))
+    tname = table or "<bounds table>"
     reads = [n for n in own_nodes(f.node) if isinstance(n, ast.Subscript) and isinstance(n.ctx, ast.Load) and isinstance(n.value, ast.Subscript)
-             and U(n.value.value) == "openersBottom"]
+             and U(n.value.value) == tname]
     writes = [n for n in own_nodes(f.node) if isinstance(n, ast.Assign) and len(n.targets) == 1 and isinstance(n.targets[0], ast.Subscript)
-              and isinstance(n.targets[0].value, ast.Subscript) and U(n.targets[0].value.value) == "openersBottom"]
+              and isinstance(n.targets[0].value, ast.Subscript) and U(n.targets[0].value.value) == tname]
 
     def norm(e: ast.AST) -> str:
         class N(ast.NodeTransformer):
@@ -191,7 +219,7 @@ def rule_guard(c: Ctx) -> RuleResult:
         import copy
         return U(N().visit(copy.deepcopy(e)))
     if not reads or not writes:
-        r.add("delims|bounds", c.where(f, f.node), f.short, "openersBottom", "violation",
+        r.add("delims|bounds", c.where(f, f.node), f.short, "table of opener lower bounds", "violation",
               "the table of opener lower bounds is " + ("never read" if not reads else "never written") + ": failed searches are repeated for every closer")
     else:
         rk = {(norm(x.value.slice), norm(x.slice)) for x in reads}
@@ -200,29 +228,25 @@ def rule_guard(c: Ctx) -> RuleResult:
         r.add("delims|key", c.where(f, writes[0]), f.short, U(writes[0].targets[0])[:90], "discharged" if ok else "violation",
               "the lower bound is written under the key it is read with" if ok else
               f"the lower bound is written under key {sorted(wk)} but read under {sorted(rk)}: bounds land in slots that are never consulted")
-        # the inner loop's bound comes from the table
-        inner = [n for n in own_nodes(f.node) if isinstance(n, ast.While) and any(any(y is x for y in ast.walk(n.test)) for x in [n.test])
-                 and isinstance(n.test, ast.Compare) and isinstance(n.test.comparators[0], ast.Name)]
-        okb = False
-        for w in inner:
-            b = w.test.comparators[0]
-            ds = rd.at_ast(w.test, b.id)
-            if ds and all(d.value is not None and "openersBottom" in U(d.value) for d in ds):
-                okb = True
-                # cursor steps by the jump table on every path to the back edge
-                head = next(n for n in cfg.nodes if n.kind == "join" and n.ast is w)
-                cur = U(w.test.left)
+        # the inner loop's bound comes from the table, and its cursor steps by the jump table on every path
+        okb = bool(inner_loops)
+        for (w, cur, bnd) in inner_loops:
+            head = next(n for n in cfg.nodes if n.kind == "join" and n.ast is w)
 
-                def step(n: Node) -> bool:
-                    return n.kind == "stmt" and isinstance(n.ast, ast.AugAssign) and U(n.ast.target) == cur and isinstance(n.ast.op, ast.Sub) \
-                        and "jumps[" in U(n.ast.value)
-                inner_ids = {id(x) for x in ast.walk(w)}
-                bad = _must_pass(cfg, [m for (m, l) in head.succ], step, lambda n: n is head, inner_ids)
-                r.add("delims|jump", c.where(f, w), f.short, f"{cur} -= jumps[{cur}] + 1", "discharged" if bad is None else "violation",
-                      "the opener search steps over already matched runs on every path" if bad is None else
-                      "the opener search can move without using the jump table: matched runs are walked again")
-        r.add("delims|bound", c.where(f, inner[0] if inner else f.node), f.short, "while openerIdx > minOpenerIdx", "discharged" if okb else "violation",
-              "the opener search stops at the recorded lower bound" if okb else "the opener search is not bounded by a value read from openersBottom")
+            def step(n: Node, cur=cur) -> bool:
+                if n.kind != "stmt":
+                    return False
+                inc = incr_of(n.ast)
+                return inc is not None and inc[0] == cur and not inc[2] and isinstance(inc[1], ast.BinOp) or (
+                    inc is not None and inc[0] == cur and not inc[2] and any(isinstance(x, ast.Subscript) for x in ast.walk(inc[1])))
+            inner_ids = {id(x) for x in ast.walk(w)}
+            bad = _must_pass(cfg, [m for (m, l) in head.succ], step, lambda n: n is head, inner_ids)
+            r.add("delims|jump", c.where(f, w), f.short, f"{cur} -= <jump table>[{cur}] + 1", "discharged" if bad is None else "violation",
+                  "the opener search steps over already matched runs on every path" if bad is None else
+                  "the opener search can move without using the jump table: matched runs are walked again")
+        r.add("delims|bound", c.where(f, inner_loops[0][0] if inner_loops else f.node), f.short, "while <cursor> > <bound from the table>",
+              "discharged" if okb else "violation",
+              "the opener search stops at the recorded lower bound" if okb else "the opener search is not bounded by a value read from the table of lower bounds")
         # written on the no-match path
         w0 = writes[0]
         fcfg, fres = c.facts(f)
@@ -233,14 +257,17 @@ def rule_guard(c: Ctx) -> RuleResult:
     f = c.p.func("helpers/parse_link_destination.py:parseLinkDestination")
     cfg = c.cfg(f)
     r.functions += 1
-    incs = [n for n in own_nodes(f.node) if isinstance(n, ast.AugAssign) and isinstance(n.op, ast.Add) and isinstance(n.target, ast.Name)
-            and isinstance(n.value, ast.Constant) and n.value.value == 1 and "level" in n.target.id.lower() or
-            (isinstance(n, ast.AugAssign) and isinstance(n.target, ast.Name) and n.target.id in ("level", "depth"))]
-    incs = [n for n in incs if isinstance(n.op, ast.Add)]
+    # the depth counter: a local that is incremented by 1 under a `( ` test and decremented elsewhere inside the scan loop
+    incs = []
+    for n in own_nodes(f.node):
+        inc = incr_of(n) if isinstance(n, (ast.Assign, ast.AugAssign)) else None
+        if inc is not None and inc[2] and const_int(inc[1]) == 1 and inc[0].isidentifier():
+            dec = any((d := incr_of(x)) is not None and d[0] == inc[0] and not d[2] for x in own_nodes(f.node) if isinstance(x, (ast.Assign, ast.AugAssign)))
+            if dec:
+                incs.append((n, inc[0]))
     if not incs:
         raise AnchorError("parseLinkDestination: paren depth counter not found")
-    for inc in incs:
-        var = inc.target.id            # type: ignore[attr-defined]
+    for (inc, var) in incs:
         loop = None
         p = f.module.parents.get(inc)
         while p is not None and p is not f.node:
@@ -251,11 +278,12 @@ def rule_guard(c: Ctx) -> RuleResult:
         ok = False
         if loop is not None:
             for t in ast.walk(loop):
-                if isinstance(t, ast.If) and isinstance(t.test, ast.Compare) and U(t.test.left) == var and isinstance(t.test.ops[0], (ast.Gt, ast.GtE)) \
-                        and isinstance(t.test.comparators[0], (ast.Constant, ast.Name)) \
-                        and any(isinstance(x, (ast.Return, ast.Break)) for s in t.body for x in ast.walk(s)):
-                    ok = True
-        r.add(f"{f.short}|paren-cap|{var}", c.where(f, inc), f.short, U(inc), "discharged" if ok else "violation",
+                if isinstance(t, ast.If):
+                    co = cmp_oriented(t.test, lambda e: U(e) == var)
+                    if co is not None and co[1] in (ast.Gt, ast.GtE) and isinstance(co[2], (ast.Constant, ast.Name)) \
+                            and any(isinstance(x, (ast.Return, ast.Break)) for s_ in t.body for x in ast.walk(s_)):
+                        ok = True
+        r.add(f"{f.short}|paren-cap", c.where(f, inc), f.short, U(inc), "discharged" if ok else "violation",
               "the paren depth is compared with its cap inside the scan loop, which stops there" if ok else
               "the paren depth is not checked against its cap inside the scan loop: an unterminated destination is scanned to the end of "
               "the paragraph for every link opener (quadratic on '[a](b' repeated)")
@@ -278,9 +306,9 @@ def rule_scan(c: Ctx) -> RuleResult:
             if not isinstance(w, ast.While):
                 continue
             for x in ast.walk(w):
-                if isinstance(x, ast.AugAssign) and isinstance(x.target, ast.Name) and isinstance(x.op, ast.Add) \
-                        and isinstance(x.value, ast.Constant) and x.value.value == 1:
-                    v = x.target.id
+                inc_ = incr_of(x) if isinstance(x, (ast.Assign, ast.AugAssign)) else None
+                if inc_ is not None and inc_[2] and const_int(inc_[1]) == 1 and inc_[0].isidentifier():
+                    v = inc_[0]
                     used_as_line = False
                     for y in ast.walk(w):
                         if isinstance(y, ast.Subscript) and isinstance(y.value, ast.Attribute) and y.value.attr in LINE_TABLES \
@@ -307,7 +335,7 @@ def rule_scan(c: Ctx) -> RuleResult:
         while changed:
             changed = False
             for a in own_nodes(f.node):
-                if isinstance(a, ast.Assign):
+                if isinstance(a, ast.Assign) and incr_of(a) is None:
                     b = base_of(a.value)
                     names = [t.id for t in a.targets if isinstance(t, ast.Name)]
                     if (isinstance(b, ast.Name) and b.id in origin) or any(n in origin for n in names) and any(
